@@ -5,7 +5,7 @@ from enum import Enum
 
 import attrs
 
-from ..utils import entry_points
+from ..utils import atomic_write_json, entry_points
 from .exceptions import TargetError
 
 logger = logging.getLogger(__name__)
@@ -110,8 +110,7 @@ class TrackingBackend:
 
     def close(self):
         self.ops.close()
-        with open(self._get_state_path(), "w") as state_file:
-            json.dump(self._tracked_jobs, state_file)
+        atomic_write_json(self._get_state_path(), self._tracked_jobs)
 
     @property
     def target_defaults(self):
